@@ -215,6 +215,59 @@ pub fn run_stroke_geo(l: &[i128]) -> Vec<i128> {
             }
         }
     }
+    // ---- curves whose control points lie exactly on one line: the curve is a straight piece of path traversed back and forth;
+    // its curvature is zero everywhere except at the turning points, so every point of the traced stretch that is farther
+    // than the stroke width from both ends of the stretch must be covered, whatever `tight` says about the turning points
+    if r - tol > 0.0 {
+        for (_, segs) in &contours_cp {
+            for cp in segs {
+                let n = cp.len();
+                if n < 3 {
+                    continue;
+                }
+                let (ox, oy) = cp[0];
+                let far_pt = cp.iter().fold(cp[0], |m, q| if (q.0 - ox).powi(2) + (q.1 - oy).powi(2) > (m.0 - ox).powi(2) + (m.1 - oy).powi(2) { *q } else { m });
+                let (dx, dy) = (far_pt.0 - ox, far_pt.1 - oy);
+                let dl = (dx * dx + dy * dy).sqrt();
+                if dl < 1.0 || cp.iter().any(|q| ((q.0 - ox) * dy - (q.1 - oy) * dx) != 0.0) {
+                    continue;
+                }
+                let (ux, uy) = (dx / dl, dy / dl);
+                // extent of the curve along the line
+                let pos: Vec<f64> = cp.iter().map(|q| (q.0 - ox) * ux + (q.1 - oy) * uy).collect();
+                let (mut smin, mut smax) = (f64::MAX, f64::MIN);
+                for i in 0..=400 {
+                    let t = i as f64 / 400.0;
+                    let u = 1.0 - t;
+                    let v = if n == 3 {
+                        u * u * pos[0] + 2.0 * u * t * pos[1] + t * t * pos[2]
+                    } else {
+                        u * u * u * pos[0] + 3.0 * u * u * t * pos[1] + 3.0 * u * t * t * pos[2] + t * t * t * pos[3]
+                    };
+                    smin = smin.min(v);
+                    smax = smax.max(v);
+                }
+                let (a, b) = (smin + w, smax - w);
+                if b <= a {
+                    continue;
+                }
+                let steps = (((b - a) / (0.5 * w)).ceil() as usize).clamp(1, 40);
+                for i in 0..=steps {
+                    let sv = a + (b - a) * i as f64 / steps as f64;
+                    for off in [-0.5 * (r - tol), 0.0, 0.5 * (r - tol)] {
+                        let (x, y) = (ox + sv * ux - uy * off, oy + sv * uy + ux * off);
+                        must += 1;
+                        if !covered(x, y) {
+                            uncovered += 1;
+                            if first[2] == 0 {
+                                first = [(x * 1000.0) as i128, (y * 1000.0) as i128, 7];
+                            }
+                        }
+                    }
+                }
+            }
+        }
+    }
     // ---- caps and round joins: the end tangent of a segment is its first non-zero derivative (P3-P2, else P3-P1, else P3-P0)
     let tangent = |cp: &Vec<(f64, f64)>, at_end: bool| -> Option<(f64, f64)> {
         let n = cp.len();
